@@ -283,6 +283,7 @@ func main() {
 	repo := flag.String("repo", "/repo", "repository root")
 	out := flag.String("out", "/verif/lean/CM/Generated", "output directory for generated Lean files")
 	factsPath := flag.String("facts", "", "also write the facts as JSON here")
+	skip := flag.String("fn-skip", "", "comma-separated functions the function translator has to stub (their printed definition did not compile)")
 	listOnly := flag.Bool("list-funcs", false, "print the function keys of the packages (to refresh known_funcs.txt) and exit")
 	flag.Parse()
 	if *listOnly {
@@ -290,6 +291,11 @@ func main() {
 			fmt.Println(k)
 		}
 		return
+	}
+	for _, n := range strings.Split(*skip, ",") {
+		if n != "" {
+			fnSkip[n] = true
+		}
 	}
 	outDir = *out
 	os.MkdirAll(outDir, 0o755)
